@@ -263,7 +263,7 @@ def _cfgs_line(tier, seed):
     out = []
     for adjust in ("spacing", "region"):
         for pixel in (False, True):
-            out.append({"adjust": adjust, "pixel": pixel, "maxq": "7/2" if tier == "quick" else "13/2"})
+            out.append({"adjust": adjust, "pixel": pixel, "maxq": "7/2" if tier == "quick" else "21/2"})
     return out
 
 
@@ -274,12 +274,12 @@ def _cfgs_grid_spacing(tier, seed):
             for per in (False, True):
                 if tier == "quick" and per and pixel:
                     continue
-                out.append({"adjust": adjust, "pixel": pixel, "per_direction": per, "maxq": "5/2" if tier == "quick" else "7/2"})
+                out.append({"adjust": adjust, "pixel": pixel, "per_direction": per, "maxq": "5/2" if tier == "quick" else "9/2"})
     return out
 
 
 def _cfgs_grid_shape(tier, seed):
-    shapes = [(1, 1), (1, 3), (3, 1), (2, 3), (3, 2)] if tier == "quick" else [(a, b) for a in range(1, 5) for b in range(1, 5)]
+    shapes = [(1, 1), (1, 3), (3, 1), (2, 3), (3, 2)] if tier == "quick" else [(a, b) for a in range(1, 6) for b in range(1, 6)]
     out = []
     for sh in shapes:
         for pixel in (False, True):
@@ -290,7 +290,7 @@ def _cfgs_grid_shape(tier, seed):
 
 
 def _cfgs_s2s(tier, seed):
-    shapes = [(2, 3), (3, 2), (2, 2)] if tier == "quick" else [(a, b) for a in range(2, 6) for b in range(2, 6)]
+    shapes = [(2, 3), (3, 2), (2, 2)] if tier == "quick" else [(a, b) for a in range(2, 7) for b in range(2, 7)]
     return [{"shape": sh, "pixel": p} for sh in shapes for p in (False, True)]
 
 
@@ -299,34 +299,34 @@ HARNESSES = [
         "line_spacing",
         h_line_spacing,
         _cfgs_line,
-        bounds="start <= stop, spacing > 0 symbolic reals (unbounded magnitude); extent/spacing <= 3.5 (quick) / 6.5 (thorough): 1..7 intervals forked; both adjust modes x both registrations",
+        bounds="start <= stop, spacing > 0 symbolic reals (unbounded magnitude); extent/spacing <= 3.5 (quick) / 10.5 (thorough): up to 11 intervals forked; both adjust modes x both registrations",
         outside="more intervals per axis than the bound; OUT-FP",
     ),
     Harness(
         "line_size",
         h_line_size,
-        lambda tier, seed: [{"pixel": p, "maxsize": 4 if tier == "quick" else 7} for p in (False, True)],
-        bounds="start <= stop symbolic; size symbolic integer in 1..4 (quick) / 1..7 (thorough), forked",
+        lambda tier, seed: [{"pixel": p, "maxsize": 4 if tier == "quick" else 10} for p in (False, True)],
+        bounds="start <= stop symbolic; size symbolic integer in 1..4 (quick) / 1..10 (thorough), forked",
     ),
     Harness("errors", h_line_errors, {"quick": [{}]}, bounds="symbolic start/stop/spacing"),
     Harness(
         "grid_shape",
         h_grid_shape,
         _cfgs_grid_shape,
-        bounds="region W<=E, S<=N symbolic (degenerate allowed); concrete shapes up to 3x3 (quick) / 4x4 (thorough), 0-2 symbolic extra coordinates",
+        bounds="region W<=E, S<=N symbolic (degenerate allowed); concrete shapes up to 3x3 (quick) / 5x5 (thorough), 0-2 symbolic extra coordinates",
         group=4,
     ),
     Harness(
         "grid_spacing",
         h_grid_spacing,
         _cfgs_grid_spacing,
-        bounds="region symbolic; scalar or per-direction symbolic spacing; extent/spacing <= 2.5 (quick) / 3.5 (thorough) per axis",
+        bounds="region symbolic; scalar or per-direction symbolic spacing; extent/spacing <= 2.5 (quick) / 4.5 (thorough) per axis",
     ),
     Harness(
         "shape_to_spacing",
         h_shape_to_spacing,
         _cfgs_s2s,
-        bounds="region W<E, S<N symbolic; shapes 2..3 (quick) / 2..5 (thorough) per axis; both registrations",
+        bounds="region W<E, S<N symbolic; shapes 2..3 (quick) / 2..6 (thorough) per axis; both registrations",
         engine={"oneshot": True},
     ),
     Harness(
